@@ -32,6 +32,8 @@ def main(argv=None) -> int:
         seed = int(os.environ.get("VERIF_SEED", "1"))
     except ValueError:
         seed = 1
+    if args.replay:
+        args.replay = os.path.abspath(args.replay)
     t0 = time.time()
     os.environ.setdefault("VF_SHRINK_BUDGET_S", "15" if args.tier == "quick" else "90")
     scratch = env.enter_scratch()
